@@ -20,8 +20,8 @@ CLAIMED = {
   text="For every path of up to N bytes over an alphabet that spells the compound and look-alike suffixes, and every single -E remap pair, Z3 shows on the MIR of parse_file/parser_for_file_path/try_parser_for_extension, against the suffix table obtained by executing language_parsers() itself: the grammar used is the entry of the shortest dotted suffix that is (after remap) a key, else of the whole file name, else the file is neither read nor parsed; names with a literal compound suffix behind a symbolic stem (x.go.mod, x.d.ts ...); several files per run through parse_blocks (each file judged by its own name); every registered suffix carries the grammar of the language it conventionally denotes (independent table). parse_extensions/Args::validate: KEY=VALUE needs '=', mappings onto unsupported grammars are rejected, onto each of the 39 keys accepted.",
   note="Trusted: interpreter, string/path/HashMap models, stubs for the 23 grammar constructors, FileSystem::read_to_string and BlocksParser::parse. Not decided: clap's argument parsing, paths with '.', '..' or empty components, non-ASCII names."),
  'C15': dict(
-  text="For <=4 files with arbitrary (symbolic) walked / allow / ignore / named-in-diff flags, symbolic should_scan_files and several walk and map iteration orders, Z3 shows on the MIR of parse_blocks/parse_file that the files read are exactly (scan and walked and allow, or in diff) minus ignore, each once, and are the keys of the result. For every diff target path up to N bytes, line_changes_from_diff files it under the target minus exactly one leading b/, and skips removed files.",
-  note="Trusted: interpreter, HashMap/iterator/string models. Stubs (arbitrary within their contract): globset (allow/ignore are free booleans per path), ignore::Walk, FileSystem, BlocksParser::parse, unidiff::PatchSet::from_str. Not decided: glob semantics, hidden/git-ignored files, repository-root discovery, cwd, quoted paths."),
+  text="For <=4 files with arbitrary (symbolic) walked / allow / ignore / named-in-diff flags, symbolic should_scan_files and several walk and map iteration orders, Z3 shows on the MIR of parse_blocks/parse_file that the files read are exactly (scan and walked and allow, or in diff) minus ignore, each once, and are the keys of the result. For every diff target path up to N bytes, line_changes_from_diff files it under the target minus exactly one leading b/, and skips removed files. repository_root_path from start directories of depth 0-4 with a symbolic .git/.hg directory per ancestor: the nearest marked ancestor-or-self, Err iff none. FileSystemImpl::walk on entries whose kind (file/directory/error) Z3 chooses: exactly the non-directory entries, in order, relative to the root; read_to_string opens root/path.",
+  note="Trusted: interpreter, HashMap/iterator/string models. Stubs (arbitrary within their contract): globset (allow/ignore are free booleans per path), ignore::Walk, FileSystem (in parse_blocks; FileSystemImpl itself runs on Path::is_dir / Walk::new / DirEntry::path / fs::read_to_string stubs), BlocksParser::parse, unidiff::PatchSet::from_str. Not decided: glob semantics, hidden/git-ignored files, fs::canonicalize and the current directory, .git as a file, quoted paths."),
  'C10': dict(
   text="For every enumerated layout (lines before, indentation, 1-4 comment lines, tag on any of them, text after the comment on its last line, per-line lead/key/trail shapes) and every value of the key and blank bytes, Z3 shows on the MIR of the block parser glue and of the five sync validators: a sort/unique/pattern violation's line and byte columns delimit exactly the first offending key in the assembled file; line-count and affects violations span exactly '<'..'>' of the start tag; the block's tag position and content byte range are those of the layout. Start tags over one to three lines. MdParser::parse_html_comments with symbolic html-block start (row, column) and symbolic block-relative comment positions: file line = row + relative line, file column = relative column plus the block's column iff on the block's first line, byte range shifted by the block's start byte.",
   note="Trusted: interpreter, string models. Stubs: tree-sitter (the two Comment values of a /* */ layout; validated on sampled witnesses against the real binary), tree-sitter's html-block query results and the inner HTML comment parser (block-relative comments) in the Markdown harness; regex for ^a+$ only; the tag scanner and grammar are the crate's MIR on the winnow combinator models (C05), serde_json::to_value. Not decided: Lua/AI ranges (async), regex-group keys, multi-byte text, other comment syntaxes."),
